@@ -401,7 +401,15 @@ fn large_cleanup_case(cx: &mut Cx) {
     let mut ds: Vec<D32> = keys.iter().map(|k| ref_distance(&me.to_bytes(), k)).collect();
     ds.sort();
     let with_range = cx.rng.gen_bool(0.8);
-    let range = ds[ds.len() * cx.rng.gen_range(20..80) / 100];
+    // the range is the distance of a held record: usually one in the middle, sometimes exactly the farthest or the closest
+    let range = match cx.rng.gen_range(0..8) {
+        0 | 1 => {
+            cx.count("large-cleanups:range-is-the-farthest-records-distance");
+            *ds.last().expect("nonempty")
+        }
+        2 => ds[0],
+        _ => ds[ds.len() * cx.rng.gen_range(20..80) / 100],
+    };
     if with_range {
         sim.nodes[0].drv.verif_set_distance_range(to_u256(&range));
     }
